@@ -28,7 +28,9 @@ RULE = ("for each generated program (10-60 messages; nested, failing, typed, tas
         "a finished task of 257-330 direct children). Acknowledgements are expectations, not observations: every message-logging call "
         "acknowledges one line more than were flushed before it; a quarter of the enumerated programs run with a destination ahead of the file "
         "that itself logs an audit message and acknowledges it, another quarter log a message in an action's context after finish() inside its own "
-        "context() (such tasks are exempt from the completeness clause only). non-trivial = crash inside a task with an open "
+        "context() (such tasks are exempt from the completeness clause only). part 'exitlog': fresh interpreters that end in the ordinary way (fall off the end / sys.exit) "
+        "and whose application atexit hook - registered before or after the log file was set up by to_file / add_destinations - logs a message and finishes the "
+        "action spanning the program: every logging call acknowledged during exit is in the file, the task parses as complete. non-trivial = crash inside a task with an open "
         "nested action; distinct by (program shape, mode, crash point)")
 ASSUMPTIONS = ["process death (SIGKILL), not machine/power failure: the kernel keeps data already handed to write(2)",
                "programs are deterministic given the seed (uuids excepted), so the reference run names the expected sequence"]
@@ -42,6 +44,7 @@ def plan(tier, seed):
     specs = [{"part": "enum", "seed": seed, "i": i} for i in range(n)]
     m = 16 if tier == "quick" else 200
     specs += [{"part": "external", "seed": seed, "i": i, "kills": 12 if tier == "quick" else 25} for i in range(m)]
+    specs += [{"part": "exitlog", "seed": seed, "i": i} for i in range(16)]
     return specs
 
 
@@ -251,9 +254,115 @@ def reference_of(prog, mode, tmpdir, repeat=1, audit=False, late=False):
     return ref, None
 
 
+EXIT_CHILD = r'''
+import atexit, os, sys
+sys.path.insert(0, sys.argv[1])
+import json
+spec = json.loads(sys.argv[2])
+log_path, ack_path = sys.argv[3], sys.argv[4]
+ack_fd = os.open(ack_path, os.O_WRONLY | os.O_CREAT | os.O_APPEND)
+import eliot
+from eliot import FileDestination
+
+def ack(tag, _write=os.write, _fd=ack_fd):
+    _write(_fd, (tag + "\n").encode())
+
+box = {}
+
+def app_hook():
+    # the application's own exit hook: says good-bye in the log and finishes the action that spans the program
+    eliot.log_message(message_type="app:shutdown")
+    ack("app:shutdown")
+    box["main"].finish()
+    ack("app:main/succeeded")
+
+def install():
+    f = open(log_path, spec["mode"])
+    if spec["how"] == "to_file":
+        eliot.to_file(f)
+    else:
+        eliot.add_destinations(FileDestination(file=f))
+
+if spec["order"] == "hook_first":
+    atexit.register(app_hook)
+    install()
+else:
+    install()
+    atexit.register(app_hook)
+box["main"] = eliot.start_action(action_type="app:main")
+ack("app:main/started")
+with box["main"].context():
+    eliot.log_message(message_type="app:running")
+    ack("app:running")
+if spec["exit"] == "sys.exit":
+    sys.exit(0)
+'''
+
+
+def part_exitlog(spec, res):
+    """Messages logged while the process exits in the ordinary way (the application's atexit hook, registered before or after the log
+    file was set up; fall off the end or sys.exit): a logging call that returned is in the file - here the process 'dies' by exiting."""
+    import subprocess
+    import sys
+    from vf.runner import REPO
+    combos = [(how, order, mode, ex) for how in ("to_file", "add_destinations") for order in ("hook_first", "hook_last") for mode in ("ab", "a")
+              for ex in ("fall_off", "sys.exit")]
+    how, order, mode, ex = combos[spec["i"] % len(combos)]
+    sp = {"how": how, "order": order, "mode": mode, "exit": ex}
+    d = tempfile.mkdtemp(prefix="vf-c11-exit-")
+    c = res["counters"]
+    try:
+        script, log, ackp = os.path.join(d, "child.py"), os.path.join(d, "log"), os.path.join(d, "ack")
+        with open(script, "w") as f:
+            f.write(EXIT_CHILD)
+        env = {k: v for k, v in os.environ.items() if k not in ("PYTHONPATH",)}
+        try:
+            p = subprocess.run([sys.executable, script, REPO, json.dumps(sp), log, ackp], env=env, capture_output=True, timeout=120, cwd=d)
+        except subprocess.TimeoutExpired:
+            res["inconclusive"] = "exitlog child did not finish"
+            return
+        acks = open(ackp).read().split() if os.path.exists(ackp) else []
+        raw = open(log, "rb").read() if os.path.exists(log) else b""
+        res["evals"] += 1
+        if "app:running" not in acks:
+            res["inconclusive"] = "exitlog child did not get going: %s" % p.stderr.decode("utf-8", "replace")[-300:]
+            return
+        problems = []
+        msgs = []
+        for ln in raw.split(b"\n")[:-1]:
+            try:
+                msgs.append(json.loads(ln.decode("utf-8")))
+            except Exception as e:
+                problems.append("a complete line is not JSON: %r" % (ln[:80],))
+        present = [m.get("message_type") or "%s/%s" % (m.get("action_type"), m.get("action_status")) for m in msgs]
+        missing = [a for a in acks if a not in present]
+        if missing:
+            problems.append("logging calls that returned while the process was exiting (application's atexit hook registered %s the log file was set up with %s) "
+                            "are missing from the log file: %s (file holds %s)" % ("before" if order == "hook_first" else "after", how, missing, present))
+        if "app:main/succeeded" in acks:
+            try:
+                tasks = [t for t in Parser.parse_stream(msgs) if getattr(t.root(), "action_type", None) == "app:main"]
+                if len(tasks) != 1 or not tasks[0].is_complete() or tasks[0].root().end_message is None:
+                    problems.append("the program finished its spanning action (finish() returned), the file parses to %s" % (
+                        [(t.is_complete(), getattr(t.root(), "status", None)) for t in tasks],))
+            except Exception as e:
+                problems.append("parsing the file raised %r" % (e,))
+        c["logging_calls_acknowledged_during_exit"] = c.get("logging_calls_acknowledged_during_exit", 0) + sum(1 for a in acks if a in ("app:shutdown", "app:main/succeeded"))
+        res["nontrivial"].append(h(["exitlog", sp]))
+        if problems:
+            res["violations"].append({"msg": problems[0], "mech": None, "detail": {"part": "exitlog", "spec": sp, "acks": acks, "problems": problems[:4],
+                                                                                 "stderr": p.stderr.decode("utf-8", "replace")[-400:]}})
+    finally:
+        import shutil
+        shutil.rmtree(d, ignore_errors=True)
+
+
 def run_case(spec):
     res = {"evals": 0, "nontrivial": [], "counters": {}, "violations": [], "sets": {"phases_hit": []}}
     rng = random.Random("%s:C11:%s:%d" % (spec["seed"], spec["part"], spec["i"]))
+    if spec["part"] == "exitlog":
+        part_exitlog(spec, res)
+        return res
     tmpdir = tempfile.mkdtemp(prefix="vf-c11-")
     c = res["counters"]
     try:
@@ -358,6 +467,8 @@ def finalize(agg, tier):
         return "fewer than 500 injected crashes"
     if c.get("external_kills_midway", 0) < 10:
         return "fewer than 10 external kills landed midway through a run"
+    if c.get("logging_calls_acknowledged_during_exit", 0) < 16:
+        return "too few logging calls were acknowledged during interpreter exit"
     if len(agg["sets"].get("phases_hit", {})) < 12:
         return "not every (phase, mode) combination was hit"
     return None
